@@ -4,12 +4,12 @@ import world as W
 
 SIMPLE_FORMS = ['assign', 'expr', 'print', 'emit', 'write', 'for', 'if', 'with', 'try', 'multiline',
                 'multicall', 'semi', 'semiemit', 'tq', 'tqprint', 'callmod', 'callmod_expr', 'comment']
-ASYNC_FORMS = ['await', 'awaitexpr', 'awaitprint', 'gather', 'asyncwith', 'asyncfor']
+ASYNC_FORMS = ['await', 'awaitexpr', 'awaitprint', 'gather', 'asyncwith', 'asyncfor', 'bgtask']
 NPTS = {'for': 2, 'if': 2, 'try': 2, 'tryexc': 2, 'semi': 2, 'semiemit': 2, 'multicall': 2, 'asyncwith': 3,
         'asyncfor': 2, 'comment': 0, 'directive': 0, 'defhelper': 0, 'defemit': 0, 'defclass': 0,
         'asyncdef': 0, 'badcompile': 0, 'usename': 0, 'useG': 0, 'useshadow': 0, 'delconst': 0, 'hasconst': 0,
-        'decodef2': 2}
-MULTILINE_FORMS = {'for', 'if', 'with', 'try', 'tryexc', 'multiline', 'multicall', 'tq', 'tqprint', 'defhelper',
+        'decodef2': 2, 'bgtask': 3}
+MULTILINE_FORMS = {'bgtask', 'for', 'if', 'with', 'try', 'tryexc', 'multiline', 'multicall', 'tq', 'tqprint', 'defhelper',
                    'defemit', 'asyncwith', 'asyncfor', 'asyncdef', 'defclass', 'decoclass', 'decoasync', 'decodef2'}
 # forms in which a point may raise without the doctest's own code handling it
 TB_FORMS = {'expr', 'print', 'emit', 'multiline', 'assign', 'callmod', 'callmod_expr', 'callhelper',
@@ -35,6 +35,8 @@ NOMINAL_EXCS = [
     {'exc': 'ValueError', 'msg': 'boom %s\nsecond line of message'},
     {'exc': 'mod:%(modname)s.SimLocalError', 'msg': 'boom %s'},
     {'exc': 'SimError', 'msg': 'boom %s'},
+    {'exc': 'ValueError', 'msg': 'boom %s went wrong.'},
+    {'exc': 'RuntimeError', 'msg': 'boom %s in file data.txt'},
 ]
 
 
@@ -97,6 +99,8 @@ def gen_steps(rng, cfg, pfx, modname):
             # unprefixed string lines followed by a '...' line are not a layout the
             # docs describe (the grouping pass cuts the statement in two): refuse
             st['ps2'] = False
+        if form == 'bgtask':
+            st['ps2'] = False       # two statements: each has its own primary prompt
         if form in ('defhelper', 'defemit'):
             st['pad'] = rng.choice([0, 0, 1, 3, 6])
             if form == 'defhelper' and rng.random() < 0.3:
@@ -117,10 +121,13 @@ def gen_steps(rng, cfg, pfx, modname):
             st['modname'] = modname
         if form == 'delconst':
             deleted = True
-        if cfg.p_inline_dir and form not in W.NOCODE_FORMS and form not in ('tq', 'tqprint') and rng.random() < cfg.p_inline_dir:
+        if cfg.p_inline_dir and form not in W.NOCODE_FORMS and form not in ('tq', 'tqprint', 'bgtask') and rng.random() < cfg.p_inline_dir:
             st['inline'] = rng.choice(HARMLESS_DIRS)
             st['inline_at'] = rng.choice(['first', 'last'])
             chunk_start = True      # an inline directive makes the statement a part of its own
+        if steps and steps[-1]['form'] == 'bgtask' and not steps[-1].get('want'):
+            # the pending task is cancelled when its part ends: nothing else in that part
+            st['sep'] = 'blank'
         if st['sep'] != 'none':
             chunk_start = True
             chunk_semi = False
@@ -148,7 +155,8 @@ def gen_steps(rng, cfg, pfx, modname):
                     st['raise_at'] = 1
             elif r < cfg.p_tb + cfg.p_want:
                 cands = []
-                for wk in cfg.want_kinds:
+                # (an unfinished line is completed, and checked, by a later statement)
+                for wk in (cfg.want_kinds if form != 'emitnoeol' else []):
                     if wk == 'acc' and (prints or window_nonempty) and not has_value:
                         cands.append(wk)
                     if wk == 'last' and prints and isexpr:
@@ -278,7 +286,7 @@ def add_skips(rng, steps, unmet='env:SIM_NOT_SET'):
         steps.insert(rng.randint(0, n), block('-'))
         steps.insert(0, block('+'))
     else:
-        cands = [st for st in steps if st['form'] not in W.NOCODE_FORMS and st['form'] not in ('tq', 'tqprint') and not st.get('inline')]
+        cands = [st for st in steps if st['form'] not in W.NOCODE_FORMS and st['form'] not in ('tq', 'tqprint', 'bgtask') and not st.get('inline')]
         for st in rng.sample(cands, min(len(cands), rng.randint(1, 2))):
             st['inline'] = [['+', 'SKIP', None]]
             st['inline_at'] = rng.choice(['first', 'last'])
@@ -327,6 +335,8 @@ def fix_chunk_starts(steps):
         if w and st['form'] == 'emitop' and semi:
             st['sep'] = 'blank'
             semi = False
+        if prev is not None and prev['form'] == 'bgtask' and not prev.get('want') and st.get('sep', 'none') == 'none':
+            st['sep'] = 'blank'
         if st.get('indent') and (prev is None or not (prev.get('indent') or (prev.get('want') and st.get('sep', 'none') == 'none'))):
             # a deeper column only directly under a want (or continuing one)
             st['indent'] = 0
